@@ -200,6 +200,9 @@ func (m *Model) stepSet(c chk, name string, a []string) (error, bool) {
 		if wrongType && c.rep.IsErr() {
 			return nil, true
 		}
+		if name == "SDIFF" && m.Get(a[0]) == nil && c.rep.IsErr() {
+			return nil, true // a missing base set: empty by the property, an error by the API comment; both accepted
+		}
 		if len(res) == 0 {
 			return c.emptyOrNil(), true
 		}
@@ -243,9 +246,8 @@ func (m *Model) stepSet(c chk, name string, a []string) (error, bool) {
 		if wrongType && c.rep.IsErr() {
 			return nil, true
 		}
-		if c.rep.IsErr() && len(res) == 0 {
-			// refusing to store an empty result is tolerated if nothing changes
-			return nil, true
+		if name == "SDIFFSTORE" && m.Get(a[1]) == nil && c.rep.IsErr() {
+			return nil, true // missing base set: documented error, nothing changes
 		}
 		m.Get(a[0])
 		if len(res) == 0 {
@@ -264,7 +266,13 @@ func (m *Model) stepSet(c chk, name string, a []string) (error, bool) {
 		}
 		dst, wrong2 := m.setAt(a[1])
 		if wrong2 {
+			if src == nil && !c.rep.IsErr() {
+				return c.integer(0), true // nothing to move: 0 is as good as the type error
+			}
 			return c.err(), true
+		}
+		if dst == nil && a[0] != a[1] && c.rep.IsErr() {
+			return nil, true // destination absent: created (Redis) or "destination is not a set" (documented) — not asserted
 		}
 		if src == nil {
 			if c.rep.IsErr() {
@@ -274,9 +282,6 @@ func (m *Model) stepSet(c chk, name string, a []string) (error, bool) {
 		}
 		if _, ok := src.Set[a[2]]; !ok {
 			return c.integer(0), true
-		}
-		if dst == nil && c.rep.IsErr() {
-			return nil, true // destination absent: created or an error — not asserted
 		}
 		delete(src.Set, a[2])
 		m.touch(a[0])
